@@ -52,6 +52,12 @@ def run(tier, seed):
                 paths = []
                 for rel in rels:
                     paths += fstree.spellings(rng, rel)
+                # one link spelled "through" another (a loop in front of a link defeats non-strict resolve())
+                links = [rel[len("root/"):] for rel, k, p in nodes if rel.startswith("root/") and k == "l"]
+                for a in links[:4]:
+                    for b in links[:4]:
+                        up_n = "/".join([".."] * (a.count("/") + 1))
+                        paths += ["/%s/%s/%s/secret.txt" % (a, up_n, b), "/%s/%s/%s" % (a, up_n, b), "/%s/x/../%s/%s" % (a, up_n, b)]
                 for up in paths:
                     try:
                         req = GeminiRequest.from_line("gemini://h" + up)
